@@ -32,3 +32,5 @@ def run(prog, rep):
     _rk2.run_setter_verbatim(prog, rep, classes='all', floor=60)
     _rk2.run_store_verbatim(prog, rep)
     _rk2.run_getter_verbatim(prog, rep)
+    from ..rules import r_close as _rcr
+    _rcr.run_release(prog, rep)
